@@ -168,8 +168,14 @@ class Engine(Interp, ExecMixin, EvalMixin, CallMixin, BuiltinMixin):
         """A contract-cut call inside a comprehension body (the element variable is bound): the result is a skolem
         function of the bound variables and the postconditions are assumed closed over them.  Only callees that cannot
         raise and have no precondition and no frame are admitted (nothing would check those under the binder)."""
-        if c.requires or conds or nd or mri or c.modifies:
-            raise OutsideSubset(f"call of {short} under a binder: the callee has requires/raises/modifies clauses")
+        if conds or nd or mri or c.modifies:
+            raise OutsideSubset(f"call of {short} under a binder: the callee has raises/modifies clauses")
+        if c.requires:
+            in_code = bool(st.ghost.get("__comp_code")) and st.ghost["__comp_code"][-1]
+            if in_code:
+                # the precondition must hold for every element: handed to the enclosing comprehension as an obligation per index
+                pre = z3.And([self.truthy(st, self.ev_spec(st, r)) for r in c.requires])
+                st.ghost.setdefault("__pending_pre", []).append((st.bound[-1], pre, short))
         rt = self.resolve_T(parse_T(c.returns)) if c.returns else None
         if rt is None or not rt.is_smt():
             raise OutsideSubset(f"call of {short} under a binder: result sort {c.returns} is not an SMT sort")
